@@ -376,14 +376,15 @@ def judge_one(ast, v, check, localize=True):
     discs: list[Disc] = []
 
     def bucket(kind, node=ast):
+        if kind == 'float32-precision':      # one root cause (xs:float kept in binary64) whatever the construct
+            return f'C08/float32-precision/{construct_name(node)}'
         sig = arg_signature(node, v)
-        return f'C08/{construct_name(node)}/{sig}/{kind}' if sig else f'C08/{construct_name(node)}/{kind}'
+        return f'C08/{construct_name(node)}/{kind}/{sig}' if sig else f'C08/{construct_name(node)}/{kind}'
 
     kind = None
     if obs[0] == 'escape':
-        return [Disc(escape_bucket('C08', obs[1]) + '/' + rootname, exp[1] if exp[0] != 'err' else exp[1],
-                     repr(obs[1]), f'{v}: {expr}')], info
-    if exp[0] == 'err':
+        kind = 'escape'
+    elif exp[0] == 'err':
         if obs[0] == 'err':
             if exp[2] and obs[1] != exp[1] and _ERR_FAMILY.get(exp[1], exp[1]) != _ERR_FAMILY.get(obs[1], obs[1]):
                 kind = f'error-code:{exp[1]}->{obs[1]}'
@@ -425,8 +426,7 @@ def judge_one(ast, v, check, localize=True):
     if kind is None:
         return [], info
     # ---- localise: the smallest closed subexpression that fails on its own names the bucket
-    node = ast
-    if localize and exp[0] in ('val', 'err'):
+    if localize:
         for sub in sorted(_closed_subexprs(ast), key=lambda s: len(canon(s))):
             ds, _ = judge_one(sub, v, check, localize=False)
             if ds:
@@ -434,8 +434,11 @@ def judge_one(ast, v, check, localize=True):
                 d.detail = f'{v}: inside {expr}: ' + d.detail
                 return [d], info
     exp_show = exp[1] if exp[0] != 'err' else 'error ' + exp[1]
+    if kind == 'escape':
+        discs.append(Disc(escape_bucket('C08', obs[1]) + '/' + rootname, exp_show, repr(obs[1]), f'{v}: {expr}'))
+        return discs, info
     obs_show = obs[1] if obs[0] != 'err' else 'error ' + obs[1]
-    discs.append(Disc(bucket(kind, node), exp_show, obs_show, f'{v}: {expr}'))
+    discs.append(Disc(bucket(kind), exp_show, obs_show, f'{v}: {expr}'))
     return discs, info
 
 
@@ -507,6 +510,163 @@ def judge_nested(case, rec=None):
 
 
 # --------------------------------------------------------------------------
+# equiv sub-check: the named F&O equivalences, both sides evaluated by elementpath
+# --------------------------------------------------------------------------
+_STRICT_ERRORS = {'subseq3', 'subseq2', 'remove-filter', 'rev-rev', 'tail-subseq', 'exists-empty', 'comma-assoc'}
+
+
+def build_relation(case):
+    """-> (L, R, mode) with mode 'same' | 'close' | 'true'; None if the parts do not fit the relation"""
+    rel, S = case['rel'], case['S']
+    c = lambda name, *args: ['call', name, list(args)]     # noqa: E731
+    X = ['var', 'x']
+    if rel == 'every-some':
+        P = case['P']
+        return ['every', [['x', S]], P], c('not', ['some', [['x', S]], c('not', P)]), 'same'
+    if rel == 'subseq3':
+        a, b = case['a'], case['b']
+        pred = ['and', ['vcmp', 'le', c('round', a), ['pos']],
+                ['vcmp', 'lt', ['pos'], ['arith', '+', c('round', a), c('round', b)]]]
+        return c('subsequence', S, a, b), ['filter', S, pred], 'same'
+    if rel == 'subseq2':
+        a = case['a']
+        return c('subsequence', S, a), ['filter', S, ['vcmp', 'le', c('round', a), ['pos']]], 'same'
+    if rel == 'rev-rev':
+        return c('reverse', c('reverse', S)), S, 'same'
+    if rel == 'insert-count':
+        return (c('count', c('insert-before', S, case['i'], case['T'])),
+                ['arith', '+', c('count', S), c('count', case['T'])], 'same')
+    if rel == 'remove-filter':
+        return c('remove', S, case['i']), ['filter', S, ['vcmp', 'ne', ['pos'], case['i']]], 'same'
+    if rel == 'tail-subseq':
+        return c('tail', S), c('subsequence', S, ['int', 2]), 'same'
+    if rel == 'head-first':
+        return c('head', S), ['filter', S, ['int', 1]], 'same'
+    if rel == 'sum-avg':
+        return (c('sum', S), ['if', c('empty', S), ['int', 0], ['arith', '*', c('avg', S), c('count', S)]], 'close')
+    if rel == 'minmax-bound':
+        out = None
+        for fn, op in (('max', 'ge'), ('min', 'le')):
+            m = c(fn, S)
+            e = ['if', c('empty', S), c('empty', m),
+                 ['and', ['every', [['x', S]], ['vcmp', op, m, X]], ['some', [['x', S]], ['vcmp', 'eq', X, m]]]]
+            out = e if out is None else ['and', out, e]
+        return out, ['bool', True], 'same'
+    if rel == 'filter-for':
+        P = case['P']
+        if c08_gen.uses_var_under_focus(P, 'x'):
+            return None
+        return (['filter', S, c08_gen.subst_var_by_ctx(P, 'x')],
+                ['for', [['x', S]], ['if', P, X, ['empty']]], 'same')
+    if rel == 'for-map':
+        F = case['F']
+        if c08_gen.uses_var_under_focus(F, 'x'):
+            return None
+        return ['for', [['x', S]], F], ['map', S, c08_gen.subst_var_by_ctx(F, 'x')], 'same'
+    if rel == 'exists-empty':
+        return c('exists', S), c('not', c('empty', S)), 'same'
+    if rel == 'some-filter':
+        P = case['P']
+        return (['some', [['x', S]], P], c('exists', ['for', [['x', S]], ['if', P, ['int', 1], ['empty']]]), 'same')
+    if rel == 'comma-assoc':
+        T, U = case['T'], case['U']
+        return ['seq', ['seq', S, T], U], ['seq', S, ['seq', T, U]], 'same'
+    if rel == 'index-of-def':
+        x = case['x']
+        return (c('index-of', S, x),
+                ['for', [['i', ['to', ['int', 1], c('count', S)]]],
+                 ['if', ['vcmp', 'eq', ['filter', S, ['var', 'i']], x], ['var', 'i'], ['empty']]], 'same')
+    if rel == 'last-reverse':
+        return ['filter', S, ['last']], ['filter', c('reverse', S), ['int', 1]], 'same'
+    if rel == 'first-subseq':
+        return ['filter', S, ['int', 1]], c('subsequence', S, ['int', 1], ['int', 1]), 'same'
+    if rel == 'distinct-bound':
+        d = c('distinct-values', S)
+        return (['and', ['vcmp', 'le', c('count', d), c('count', S)],
+                 ['and', ['vcmp', 'eq', c('count', c('distinct-values', d)), c('count', d)],
+                  ['vcmp', 'eq', c('empty', d), c('empty', S)]]], ['bool', True], 'same')
+    if rel == 'count-for':
+        return c('count', S), c('sum', ['for', [['x', S]], ['int', 1]]), 'same'
+    if rel == 'count-map':
+        return c('count', S), c('count', ['map', S, ['int', 1]]), 'same'
+    raise ValueError(rel)
+
+
+def _close(a, b):
+    """two canonical numeric singletons equal within 1e-18 relative"""
+    if len(a) != 1 or len(b) != 1:
+        return False
+
+    def fr(it):
+        if it[0] == 'i':
+            return Fraction(it[1])
+        if it[0] == 'd' and '/' in it[1]:
+            return _frac(it[1])
+        return None
+    x, y = fr(a[0]), fr(b[0])
+    if x is None or y is None:
+        return False
+    return abs(x - y) <= Fraction(1, 10 ** 18) * max(1, abs(x))
+
+
+def judge_equiv(case, rec: Recorder | None = None) -> list[Disc]:
+    v, rel = case['v'], case['rel']
+    built = build_relation(case)
+    status = 'both-values'
+    discs: list[Disc] = []
+    if built is not None:
+        # guard only: a side the reference cannot finish within its step budget (huge ranges) is not run
+        for side in built[:2]:
+            try:
+                interp.evaluate(side, v)
+            except Budget:
+                built = None
+                status = 'budget'
+                break
+            except XPError:
+                pass
+    if built is None:
+        status = 'not-applicable' if status == 'both-values' else status
+    else:
+        L, R, mode = built
+        use_doc = _needs_doc(L) or _needs_doc(R)
+        le, re_ = interp.render(L), interp.render(R)
+        ol, orr = run_ep(le, v, use_doc), run_ep(re_, v, use_doc)
+        kind = None
+        if ol[0] == 'escape' or orr[0] == 'escape':
+            bad = ol if ol[0] == 'escape' else orr
+            discs.append(Disc(escape_bucket('C08', bad[1]) + '/equiv/' + rel, 'no escape', repr(bad[1]),
+                              f'{v}: {le}  ==  {re_}'))
+            status = 'escape'
+        elif ol[0] == 'err' and orr[0] == 'err':
+            status = 'both-errors'
+        elif ol[0] == 'err' or orr[0] == 'err':
+            status = 'asymmetric-error'
+            if rel in _STRICT_ERRORS:
+                kind = 'error-asymmetry'
+        elif mode == 'close':
+            if not (ol[1] == orr[1] or _close(ol[1], orr[1])):
+                kind = 'value'
+        elif ol[1] != orr[1]:
+            kind = 'length' if len(ol[1]) != len(orr[1]) else 'value'
+            if kind == 'value' and all(item_mismatch(x, y) is None or item_mismatch(y, x) is None
+                                       for x, y in zip(ol[1], orr[1])):
+                kind = None         # integer vs equal decimal
+        if kind:
+            discs.append(Disc(f'C08/equiv/{rel}/{kind}', ol[1], orr[1], f'{v}: {le}  ==  {re_}'))
+    if rec is not None:
+        cls = ['equiv:case', f'equiv:{rel}', f'equiv:{status}']
+        parts = [case.get(k) for k in ('S', 'T', 'U', 'a', 'b', 'i', 'P', 'F', 'x') if case.get(k) is not None]
+        b = any(has_boundary(p) for p in parts)
+        dp = max(depth(p) for p in parts) + 1
+        rec.case([v, rel, parts], nontrivial=(b or dp >= 2) and status in ('both-values', 'both-errors'),
+                 sample={'check': 'equiv', 'v': v, 'rel': rel,
+                         'left': interp.render(built[0]) if built else None,
+                         'right': interp.render(built[1]) if built else None}, classes=cls)
+    return discs
+
+
+# --------------------------------------------------------------------------
 # module interface
 # --------------------------------------------------------------------------
 def selftest():
@@ -524,7 +684,7 @@ def selftest():
 def jobs(tier, seed):
     q = tier == 'quick'
     out = []
-    plan = [('direct', 5, 160 if q else 2500), ('nested', 8, 330 if q else 5000)]
+    plan = [('direct', 4, 160 if q else 2500), ('nested', 8, 330 if q else 5000), ('equiv', 4, 1500 if q else 25000)]
     for name, shards, n in plan:
         for i in range(shards):
             out.append({'check': name, 'shard': i, 'n': n, 'seed': derive_seed(seed, 'C08', name, i)})
@@ -532,11 +692,14 @@ def jobs(tier, seed):
 
 
 _BATCH = {'direct': c08_gen.direct_batch(), 'nested': nested_batch()}
-_CHECKNAME = {'direct': 'direct', 'nested': 'nested'}
 
 
 def run_job(job, rec: Recorder):
     chk = job['check']
+    if chk == 'equiv':
+        hyp_collect(c08_gen.equiv_case(), lambda case: rec.discs_of('equiv', case, judge_equiv(case, rec)),
+                    job['n'], job['seed'], rec)
+        return
 
     def body(case):
         for ast in case['asts']:
@@ -547,6 +710,8 @@ def run_job(job, rec: Recorder):
 
 def shrink_job(job, bucket, budget):
     chk = job['check']
+    if chk == 'equiv':
+        return hyp_shrink(c08_gen.equiv_case(), judge_equiv, bucket, job['n'], job['seed'], budget)
     got = hyp_shrink(_BATCH[chk], lambda case: judge(chk, case), bucket, job['n'], job['seed'], budget)
     if got is None:
         return None
@@ -561,6 +726,8 @@ def shrink_job(job, bucket, budget):
 
 
 def judge(check, case):
+    if check == 'equiv':
+        return judge_equiv(case)
     if 'asts' in case:
         out = []
         for ast in case['asts']:
